@@ -68,6 +68,11 @@ def run_f2(rep, pid, tier, bound=2):
         fold(rep, pid, "F2", sc, tot)
     rep.cov["bounds"]["F2_deviations"] = bound
     rep.sample(dict(family="F2", scenario=scs[len(scs) // 2], example_choice_sequence=[0, 2]))
+    ms = f2.mass_scenarios(tier) + f2.straddle_scenarios(tier)
+    for sc, s_ in zip(ms, pmap(f2.mass_work, ms, chunks=1)):
+        tot = f1.new_acc()
+        f1.merge(tot, s_)
+        fold(rep, pid, "F2-mass", dict(name=sc["name"], mass=True, tier=tier), tot)
 
 
 def run_f3(rep, pid, tier, seed=0):
@@ -108,7 +113,7 @@ RULE["F6"] = ("F6: the REAL run_simulator on every workload/config of a small al
               "arrivals, decisions, results and the transition log; uncontended chains must finish in exactly the ticks their operators need")
 
 
-def run_f6(rep, pid, tier, kinds=("recount", "uncontended", "susp", "dags")):
+def run_f6(rep, pid, tier, kinds=("recount", "uncontended", "susp", "dags", "bulk")):
     for kind in kinds:
         sp = f6.space(kind, tier)
         res = pmap(f6.work, chunked(sp, NPROC * 16), chunks=1)
@@ -155,6 +160,10 @@ def replay(rec):
         sc = f3.scenario([tuple(c) for c in rec["scenario"]["conts"]], rec["scenario"]["overcommit"])
         tr = []
         w = f3.run(sc, tr)
+    elif fam == "F2-mass" or (isinstance(rec.get("scenario"), dict) and rec["scenario"].get("mass")):
+        sc = next(x for x in f2.mass_scenarios(rec["scenario"].get("tier", "quick")) + f2.straddle_scenarios("quick") if x["name"] == rec["scenario"]["name"])
+        tr = []
+        w = f2.mass_run(sc)
     else:
         sc = rec["scenario"]
         tr = []
